@@ -6,7 +6,8 @@
    `XY -= np.round(XY / cell) * cell`, [rhe] = np.round on a scalar, [vshift cell m x] the
    point x moved by m_k cell lengths along every axis k.  All theorems hold for every
    dimension, every positive cell and all rational points (induction over the dimension). *)
-From Verif Require Import Pairwise PairwiseP.
+From Coq Require Import Lqa.
+From Verif Require Import Pairwise PairwiseP PairwiseX PairwiseXP.
 Open Scope Q_scope.
 
 (* the rounding of the model is round-half-to-even: a nearest integer, the even one on ties *)
@@ -153,4 +154,190 @@ Example C15_nonvacuous :
   mahal2 (gram [[1; 0]; [1 # 2; 2]]) (Some cell) x y == 1 # 4.
 Proof.
   cbv zeta. split; [repeat constructor|]. repeat split; vm_compute; reflexivity.
+Qed.
+
+(* ======================================================================================
+   Extension (round 3).  Model/PairwiseX.v, Proofs/PairwiseXP.v.
+   ====================================================================================== *)
+
+(* --- the array bookkeeping of the code: XY = concatenate([x - Y for x in X]) is a flat list of
+   n_X * n_Y rows, the cell is broadcast along them, the row norms / quadratic forms are
+   reshaped to (n_X, n_Y).  The functions written on that layout (these are what the
+   correspondence check runs) equal the pairwise definitions all theorems speak of. *)
+Theorem C15_flat_layout :
+  forall X Y cell, periodic_pairwise_flat X Y cell = periodic_pairwise X Y cell.
+Proof. exact periodic_pairwise_flat_eq. Qed.
+Print Assumptions C15_flat_layout.
+
+(* ... same for the Mahalanobis function, including Y=None (check_pairwise_arrays: Y = X) *)
+Theorem C15_mahal_flat_layout :
+  forall X Y cov cell,
+    pairwise_mahal_flat X Y cov cell
+    = pairwise_mahal X (match Y with None => X | Some Y' => Y' end) cov cell.
+Proof. exact mahal_flat_full. Qed.
+Print Assumptions C15_mahal_flat_layout.
+
+(* --- squared=True returns the square of what squared=False returns.  The model is exact and
+   has no square root: a squared=False result is any matrix of non-negative r with r*r = the
+   exact squared distance ([pp_returns false]).  (i) squaring such a result entrywise is a
+   squared=True result; (ii) any squared=True result is the entrywise square of any
+   squared=False result of the same call. *)
+Theorem C15_squared_flag :
+  forall X Y cell R, pp_returns false X Y cell R ->
+    pp_returns true X Y cell (map (map qsq) R) /\
+    forall R2, pp_returns true X Y cell R2 -> mat_rel (fun r r2 => 0 <= r /\ r2 == r * r) R R2.
+Proof.
+  exact (fun X Y cell R H => conj (pp_squared_flag X Y cell R H)
+                                  (fun R2 H2 => pp_flag_unique X Y cell R R2 H H2)).
+Qed.
+Print Assumptions C15_squared_flag.
+
+(* --- triangle inequality with the square roots themselves.  Q has no square roots, so they are
+   replaced by arbitrary rational upper bounds rb >= d(x,y), rc >= d(y,z) (given as
+   d^2 <= r^2, r >= 0): then d(x,z) <= rb + rc.  Over the reals this is equivalent to
+   d(x,z) <= d(x,y) + d(y,z) (rational upper bounds are dense); no hypothesis restricts the
+   points, so it is not vacuous where the distances are irrational. *)
+Theorem C15_triangle_root_bounds :
+  forall cell x y z rb rc, cell_pos cell ->
+    length x = length cell -> length y = length cell -> length z = length cell ->
+    0 <= rb -> 0 <= rc -> pd2 cell x y <= rb * rb -> pd2 cell y z <= rc * rc ->
+    pd2 cell x z <= (rb + rc) * (rb + rc).
+Proof. exact pd2_triangle_bounds. Qed.
+Print Assumptions C15_triangle_root_bounds.
+
+(* ... and literally, whenever the three distances are rational *)
+Theorem C15_triangle_roots :
+  forall cell x y z ra rb rc, cell_pos cell ->
+    length x = length cell -> length y = length cell -> length z = length cell ->
+    is_root ra (pd2 cell x z) -> is_root rb (pd2 cell x y) -> is_root rc (pd2 cell y z) ->
+    ra <= rb + rc.
+Proof. exact pd2_triangle_roots. Qed.
+Print Assumptions C15_triangle_roots.
+
+(* --- when may the fold be skipped?  Exactly when every coordinate DIFFERENCE lies within half
+   a cell length.  (That every POINT lies in the centred primary cell is not enough: see the
+   Example, differences then reach a whole cell length.) *)
+Theorem C15_fold_identity_iff :
+  forall c t, 0 < c -> (wrap c t == t <-> - c <= 2 * t <= c).
+Proof. exact wrap_id_iff. Qed.
+Print Assumptions C15_fold_identity_iff.
+
+Theorem C15_periodic_equals_free_iff :
+  forall cell x y, cell_pos cell -> length x = length cell -> length y = length cell ->
+    (pd2 cell x y == fd2 x y <-> within_half cell x y).
+Proof. exact pd2_eq_free_iff. Qed.
+Print Assumptions C15_periodic_equals_free_iff.
+
+(* --- the laws at the level of the returned matrices ------------------------------------- *)
+(* D(Y, X) is the transpose of D(X, Y), with or without a cell *)
+Theorem C15_matrix_symmetric :
+  forall X Y cell M M',
+    periodic_pairwise X (Some Y) cell = Some M -> periodic_pairwise Y (Some X) cell = Some M' ->
+    forall i j, (i < length X)%nat -> (j < length Y)%nat ->
+      nth i (nth j M' []) 0 == nth j (nth i M []) 0.
+Proof. exact pp_matrix_symmetric. Qed.
+Print Assumptions C15_matrix_symmetric.
+
+(* Y=None: zero diagonal, symmetric matrix *)
+Theorem C15_matrix_self :
+  forall X cell M, ocell_pos cell -> periodic_pairwise X None cell = Some M ->
+    (forall i, (i < length X)%nat -> nth i (nth i M []) 0 == 0) /\
+    (forall i j, (i < length X)%nat -> (j < length X)%nat ->
+       nth j (nth i M []) 0 == nth i (nth j M []) 0).
+Proof. exact pp_matrix_self. Qed.
+Print Assumptions C15_matrix_self.
+
+(* every row of X and every row of Y moved by its own integer image vector: same matrix *)
+Theorem C15_matrix_image_invariant :
+  forall cell ms ms' X Y M M', cell_pos cell ->
+    length ms = length X -> length ms' = length Y ->
+    Forall (fun m => length m = length cell) ms -> Forall (fun m => length m = length cell) ms' ->
+    periodic_pairwise X (Some Y) (Some cell) = Some M ->
+    periodic_pairwise (mshift cell ms X) (Some (mshift cell ms' Y)) (Some cell) = Some M' ->
+    forall i j, (i < length X)%nat -> (j < length Y)%nat ->
+      nth j (nth i M' []) 0 == nth j (nth i M []) 0.
+Proof. exact pp_matrix_image. Qed.
+Print Assumptions C15_matrix_image_invariant.
+
+(* every entry is non-negative, at most half the cell diagonal, at most the free-space value *)
+Theorem C15_matrix_bounds :
+  forall X Y cell M, cell_pos cell -> periodic_pairwise X (Some Y) (Some cell) = Some M ->
+    forall i j, (i < length X)%nat -> (j < length Y)%nat ->
+      0 <= nth j (nth i M []) 0 /\ 4 * nth j (nth i M []) 0 <= qsqn cell /\
+      nth j (nth i M []) 0 <= fd2 (nth i X []) (nth j Y []).
+Proof. exact pp_matrix_bounds. Qed.
+Print Assumptions C15_matrix_bounds.
+
+(* --- without a cell every entry is the free-space squared distance, which is the expression
+   sklearn's euclidean_distances evaluates: <x,x> - 2<x,y> + <y,y> *)
+Theorem C15_no_cell_is_sklearn :
+  forall X Y M, periodic_pairwise X (Some Y) None = Some M ->
+    forall i j, (i < length X)%nat -> (j < length Y)%nat ->
+      let x := nth i X [] in let y := nth j Y [] in
+      nth j (nth i M []) 0 = fd2 x y /\ fd2 x y == qdot x x - 2 * qdot x y + qdot y y.
+Proof. exact pp_no_cell. Qed.
+Print Assumptions C15_no_cell_is_sklearn.
+
+(* --- for a precision L L^T (every SPD matrix has this form) the quadratic form is never
+   negative, with or without a cell: the final `**0.5` is applied to non-negative numbers *)
+Theorem C15_mahal_nonneg :
+  forall r L cell x y, rows_len r L -> length (dvec cell x y) = length L ->
+    0 <= mahal2 (gram L) cell x y.
+Proof. exact mahal_gram_nonneg. Qed.
+Print Assumptions C15_mahal_nonneg.
+
+(* --- Mahalanobis distance and periodic images.  With a non-diagonal precision the value depends
+   on the SIGN pattern of the wrapped difference, and at an exact half-cell tie the sign of a
+   wrapped coordinate depends on the image (round-half-even).  So image invariance holds for
+   every pair without such a tie ([no_tie]) ... *)
+Theorem C15_mahal_image_invariant_off_ties :
+  forall P cell m m' x y, cell_pos cell ->
+    length m = length cell -> length m' = length cell ->
+    length x = length cell -> length y = length cell -> no_tie cell x y ->
+    mahal2 P (Some cell) (vshift cell m x) (vshift cell m' y) == mahal2 P (Some cell) x y.
+Proof. exact mahal_image_off_ties. Qed.
+Print Assumptions C15_mahal_image_invariant_off_ties.
+
+(* ... and fails at a tie, already for a 2 x 2 SPD precision and the unit cell (the statement
+   of C15 claims image invariance for the Euclidean function only; this is why the
+   correspondence oracle accepts either image for Mahalanobis at ties) *)
+Theorem C15_mahal_image_at_tie_refuted :
+  exists P cell m x y, cell_pos cell /\ length m = length cell /\
+    length x = length cell /\ length y = length cell /\
+    ~ mahal2 P (Some cell) (vshift cell m x) y == mahal2 P (Some cell) x y.
+Proof.
+  exact (ex_intro _ [[1; 1 # 2]; [1 # 2; 1]] (ex_intro _ [1; 1] (ex_intro _ [1; 0]%Z
+        (ex_intro _ [1 # 2; 1 # 4] (ex_intro _ [0; 0]
+          (conj (Forall_cons 1 (eq_refl : 0 < 1) (Forall_cons 1 (eq_refl : 0 < 1) (Forall_nil _)))
+             (conj eq_refl (conj eq_refl (conj eq_refl mahal_image_tie_witness))))))))).
+Qed.
+Print Assumptions C15_mahal_image_at_tie_refuted.
+
+(* non-vacuity of the extension: both points inside the centred primary cell of [1; 2] and yet
+   the fold matters (periodic 1/16+1/4 vs free 9/16+1/4... see values); a 3-4-5 triangle
+   on the torus with rational distances; a 2 x 2 call on the flat layout; image shift of rows *)
+Example C15_ext_nonvacuous :
+  let cell := [1; 2] in let x := [3 # 8; 1 # 2] in let y := [- (3 # 8); 0] in
+  in_cell cell x /\ in_cell cell y /\ ~ within_half cell x y /\
+  pd2 cell x y == 5 # 16 /\ fd2 x y == 13 # 16 /\
+  (let c := [100; 100] in
+   is_root 5 (pd2 c [0; 0] [3; 4]) /\ is_root 3 (pd2 c [0; 0] [3; 0]) /\ is_root 4 (pd2 c [3; 0] [3; 4])) /\
+  omat_ok exact_sq (Some [[0; 5 # 16]; [5 # 16; 0]]) (periodic_pairwise_flat [x; y] None (Some cell)) = true /\
+  pp_returns false [[0; 0]] (Some [[3; 4]]) None [[5]] /\
+  omat_ok exact_sq (Some [[0; 5 # 16]; [5 # 16; 0]])
+    (periodic_pairwise (mshift cell [[2; -1]%Z; [0; 3]%Z] [x; y]) (Some [x; y]) (Some cell)) = true /\
+  ostack_ok exact_sq (Some [[[0; 1 # 16]; [1 # 16; 0]]])
+    (pairwise_mahal_flat [x; y] None (Cov2 (gram [[1; 0]; [1 # 2; 1 # 2]])) (Some cell)) = true /\
+  no_tie cell x y.
+Proof.
+  cbv zeta.
+  split; [repeat constructor; lra|]. split; [repeat constructor; lra|].
+  split. { intros H. unfold within_half, vdiff in H. cbn [map2] in H.
+           inversion H as [|c t l v H1 _]; subst. lra. }
+  split; [vm_compute; reflexivity|]. split; [vm_compute; reflexivity|].
+  split. { repeat split; try lra; vm_compute; reflexivity. }
+  split; [vm_compute; reflexivity|].
+  split. { eexists. split; [vm_compute; reflexivity|]. repeat constructor; vm_compute; first [reflexivity|discriminate]. }
+  split; [vm_compute; reflexivity|]. split; [vm_compute; reflexivity|].
+  unfold no_tie, vdiff. cbn [map2]. repeat constructor; unfold tie; intros [T|T]; vm_compute in T; discriminate.
 Qed.
